@@ -121,7 +121,7 @@ func c12Scope(r *core.Report) ([]*core.Func, map[*core.Func]*core.Func, int) {
 func C12(r *core.Report) {
 	r.Explanation = "Crash-idiom inventory over every repository function reachable from the parser entry points (decoders, CAR reader, compact index readers in three formats, typed index readers, index metadata, sig-exists readers, block-time index, address-index log and manifest, transaction-status parsers, CAR section parsers, frame reassembly, block accumulator): " +
 		"R1 single-value type assertions, R2 index and slice expressions, R3 fixed-width binary decodes (binary.*Endian.UintN / PutUintN and the repo's BtoUintN helpers) and slice-to-array conversions, R4 make() sized by a non-constant value, R5 explicit panic, R6 integer division by a non-constant - each site must be discharged by a dominating guard found on the CFG (length facts, comma-ok, range index, loop bounds, array types, lengths of slices made in the function), or be listed with its invariant in tables/c12_exempt.json; an undischarged unlisted site is a violation. " +
-		"R9 a data-driven loop (no counter) goes round again only after the error of the read in it was found to be nil: a truncated file, where the read keeps answering (0, io.EOF), ends the loop instead of spinning. Decides: absence of unguarded instances of these idioms in the analysed functions. Not decided: termination beyond R9, memory proportionality beyond idiom R4, panics inside dependencies (cbor, cid, solana-go, zstd, protobuf), arithmetic overflow."
+		"R9 a data-driven loop (no counter) goes round again only after the error of the read in it was found to be nil: a truncated file, where the read keeps answering (0, io.EOF), ends the loop instead of spinning. Decides: absence of unguarded instances of these idioms in the analysed functions. R10 Meta.MarshalBinary rejects only what the decoder cannot produce (lengths above a limit >= 255): the manifest re-serialises parsed metadata through Meta.Bytes, which panics on a marshal error. Not decided: termination beyond R9, memory proportionality beyond idiom R4, panics inside dependencies (cbor, cid, solana-go, zstd, protobuf), arithmetic overflow."
 	r.Assumptions = []string{"facts are matched syntactically (same printed expression) and must be fresh (no reassignment between guard and use)", "the exemption table entries were confirmed by reading; each names one construct and its invariant"}
 	p := r.Prog
 	fns, reach, nroots := c12Scope(r)
@@ -283,6 +283,7 @@ func C12(r *core.Report) {
 	c12Invariants(r)
 	c12KindByte(r)
 	c12ReadLoopsLeaveOnError(r, fns)
+	c12MarshalAcceptsWhatWasParsed(r)
 	// stale table entries are reported (not as violations) so the table stays minimal
 	var stale []string
 	for k := range table {
